@@ -1,0 +1,16 @@
+//go:build verif
+
+package wire
+
+// VerifYield is a schedule-point hook used only by the deterministic
+// simulation harness (build tag "verif"). When non-nil it is invoked at named
+// protocol moments inside Close and the per-command admission path so that a
+// simulator can hold one goroutine at a point until another passes a chosen
+// point. It is never set in shipped builds.
+var VerifYield func(point string)
+
+func verifYield(point string) {
+	if fn := VerifYield; fn != nil {
+		fn(point)
+	}
+}
